@@ -591,6 +591,13 @@ pub use month::{Month, Months};
 mod traits;
 pub use traits::{Datelike, Timelike};
 
+/// Read-only accessors for external verification harnesses; not part of the public API.
+#[cfg(all(unix, feature = "__verif", feature = "clock"))]
+#[doc(hidden)]
+pub mod __verif {
+    pub use crate::offset::local::verif::*;
+}
+
 #[cfg(feature = "__internal_bench")]
 #[doc(hidden)]
 pub use naive::__BenchYearFlags;
